@@ -293,11 +293,16 @@ def invalidates(st, kinds):
     """Marker kinds invalidated by a statement: clean_locks(.., .., helper) or os.remove(<marker expr>)."""
     out = set()
     for c in ast.walk(st):
-        if isinstance(c, ast.Call) and call_name(c) == "clean_locks" and len(c.args) == 3:
-            out.add(src(c.args[2]))
+        if isinstance(c, ast.Call) and (call_name(c) or "").split(".")[-1] == "clean_locks":
+            for a in list(c.args) + [k.value for k in c.keywords]:       # the marker-name function, whatever its position
+                if src(a) in kinds or (isinstance(a, ast.Name) and a.id.endswith("lock_file_name")):
+                    out.add(src(a))
         if isinstance(c, ast.Call) and call_name(c) == "os.remove":
             t = src(c.args[0])
             if isinstance(c.args[0], ast.Name):
+                for a_ in ast.walk(st):                       # the removed name is a local computed in the same statement (inlined helper)
+                    if isinstance(a_, ast.Assign) and any(isinstance(t_, ast.Name) and t_.id == c.args[0].id for t_ in a_.targets):
+                        t += " " + src(a_.value)
                 for l in flow.enclosing_loops(c):
                     if isinstance(l, ast.For) and src(l.target) == c.args[0].id and isinstance(l.iter, (ast.List, ast.Tuple)):
                         t = " ".join(src(e) for e in l.iter.elts)
@@ -310,21 +315,31 @@ def invalidates(st, kinds):
 
 
 def r2(prog, ctx, markers, kinds):
+    for need_kind in ("reads_processed_lock_file_name", "reads_collected_lock_file_name", "suffix:_lock"):
+        if need_kind not in kinds:
+            raise AnalysisError("R2: marker kind %s is not among the kinds derived from the marker-creating sites %s (the marker-name "
+                                "helpers were renamed or restructured)" % (need_kind, sorted(kinds)))
     dels = deleting_functions(prog) - {"clean_locks"}
     # consumer 1: process_assigned_reads must drop the stage-2 markers before the first deleting call
     f = prog.func(DSP, "DatasetProcessor.process_assigned_reads")
+    if not any(isinstance(c, ast.Call) and call_name(c) and call_name(c).split(".")[-1] in dels for st in f.body for c in ast.walk(st)):
+        f = prog.func_inlined(DSP, "DatasetProcessor.process_assigned_reads")       # the stage was split into helper methods
     stage2 = "reads_processed_lock_file_name"
     first_del = None
     inval_line = None
-    for st in f.body:
-        for c in ast.walk(st):
-            if isinstance(c, ast.Call) and call_name(c) and call_name(c).split(".")[-1] in dels and first_del is None:
-                first_del = (st, c)
-        if stage2 in invalidates(st, kinds) and inval_line is None and isinstance(st, ast.Expr):
+    pos = {}
+    for i_, st in enumerate(f.body):
+        pos[id(st)] = i_
+        if stage2 in invalidates(st, kinds) and inval_line is None and isinstance(st, (ast.Expr, ast.For)):
             inval_line = st
+            continue                                   # the invalidation itself deletes markers, not parts
+        for c in ast.walk(st):
+            if isinstance(c, ast.Call) and call_name(c) and (call_name(c).split(".")[-1] in dels or call_name(c) in ("os.remove", "os.unlink")) \
+                    and first_del is None:
+                first_del = (st, c)
     if first_del is None:
         raise AnalysisError("process_assigned_reads: no merging/deleting call found")
-    if inval_line is None or inval_line.lineno > first_del[0].lineno:
+    if inval_line is None or pos[id(inval_line)] > pos[id(first_del[0])]:
         ctx.fail("R2", first_del[1], f._qualname, src(first_del[1])[:90],
                  "per-chromosome parts are deleted (via %s) while their %s markers still say 'processed': a run killed during "
                  "merging is resumed by skipping every chromosome and merging nothing" % (call_name(first_del[1]), stage2))
@@ -338,10 +353,20 @@ def r2(prog, ctx, markers, kinds):
     g = prog.func(DSP, "DatasetProcessor.process_sample")
     loops = [l for l in ast.walk(g) if isinstance(l, ast.For) and "glob.glob(" in src(l.iter) and "os.remove" in src(l)]
     if not loops:
+        g = prog.func_inlined(DSP, "DatasetProcessor.process_sample")                # the clean-up moved into a helper method
+        loops = [l for l in ast.walk(g) if isinstance(l, ast.For) and "glob.glob(" in src(l.iter) and "os.remove" in src(l)]
+    if not loops:
         raise AnalysisError("process_sample: clean-up loops not found")
-    first = min(loops, key=lambda l: l.lineno)
-    blk = first._parent.body if hasattr(first._parent, "body") else g.body
-    before = [s for s in blk if s.lineno < first.lineno]
+    def block_of(n_):
+        for fld in ("body", "orelse", "finalbody"):
+            lst = getattr(n_._parent, fld, None)
+            if isinstance(lst, list) and any(x is n_ for x in lst):
+                return lst
+        return g.body
+    blk = block_of(loops[0])
+    in_blk = [l for l in loops if any(x is l for x in blk)]
+    first = min(in_blk, key=lambda l: next(i_ for i_, x in enumerate(blk) if x is l))
+    before = blk[:next(i_ for i_, x in enumerate(blk) if x is first)]
     got = set()
     for s in before:
         got |= invalidates(s, kinds)
@@ -355,11 +380,23 @@ def r2(prog, ctx, markers, kinds):
         ctx.ok("R2", "%s:%d" % (DSP, first.lineno), "clean-up removes markers %s before the data files" % sorted(need | rg))
     # no other function deletes attested artefacts
     allowed = {"merge_files", "merge_counts", "clean_locks", "process_sample", "collect_reads", "__del__"}
+    # a helper all of whose callers are allowed consumers (transitively) deletes on their behalf
+    callers = {}
+    for m, q, fn in prog.all_functions():
+        for c in walk_no_nested(fn):
+            if isinstance(c, ast.Call) and call_name(c):
+                callers.setdefault(call_name(c).split(".")[-1], set()).add(fn.name)
+
+    def may_delete(name, seen=()):
+        if name in allowed:
+            return True
+        cs = callers.get(name, set()) - {name}
+        return bool(cs) and name not in seen and all(may_delete(c_, seen + (name,)) for c_ in cs)
     for m, q, fn in prog.all_functions():
         if not m.rel.startswith("src/") or m.rel in ("src/read_mapper.py", "src/gtf2db.py", "src/common.py"):
             continue
         for c in walk_no_nested(fn):
-            if isinstance(c, ast.Call) and call_name(c) in ("os.remove", "os.unlink") and fn.name not in allowed:
+            if isinstance(c, ast.Call) and call_name(c) in ("os.remove", "os.unlink") and not may_delete(fn.name):
                 ctx.fail("R2", c, q, src(c), "files are deleted in %s, which is outside the known consumers of stage artefacts "
                          "(merge_files, merge_counts, clean_locks, process_sample clean-up)" % q)
 
@@ -637,12 +674,21 @@ def r8(prog, ctx, markers):
             removes = [x for x in ast.walk(g) if isinstance(x, ast.Call) and call_name(x) in ("os.remove", "os.unlink")]
             if not removes:
                 continue
+            # the suffix filter may sit in g itself or in a helper / generator of the module that g calls
+            scope = [g]
             for x in ast.walk(g):
-                if isinstance(x, ast.Call) and isinstance(x.func, ast.Attribute) and x.func.attr == "endswith" and x.args:
-                    for k in ast.walk(x.args[0]):
-                        if isinstance(k, ast.Constant) and isinstance(k.value, str):
-                            covered.add(k.value)
-                            cleaner = g
+                if isinstance(x, ast.Call) and (call_name(x) or "") in iq.functions and iq.functions[call_name(x)] not in scope:
+                    scope.append(iq.functions[call_name(x)])
+            for h in scope:
+                for x in ast.walk(h):
+                    if isinstance(x, ast.Call) and isinstance(x.func, ast.Attribute) and x.func.attr == "endswith" and x.args:
+                        arg = x.args[0]
+                        if isinstance(arg, ast.Name) and arg.id in iq.assigns:
+                            arg = iq.assigns[arg.id]                  # module-level constant tuple
+                        for k in ast.walk(arg):
+                            if isinstance(k, ast.Constant) and isinstance(k.value, str):
+                                covered.add(k.value)
+                                cleaner = g
     missing = [s_ for s_ in sorted(sufs) if not any(s_.endswith(c) for c in covered)]
     if missing:
         m, mq, mst = sufs[missing[0]]
